@@ -9,7 +9,6 @@ import (
 	"log"
 	"net/url"
 	"sync"
-	"time"
 
 	"github.com/WICG/webpackage/go/internal/signingalgorithm"
 	"github.com/WICG/webpackage/go/signedexchange"
@@ -65,8 +64,8 @@ func Signer(s *Spec) (*signedexchange.Signer, error) {
 		return nil, err
 	}
 	sg := &signedexchange.Signer{
-		Date:        time.Unix(s.Date, 0),
-		Expires:     time.Unix(s.Expires, 0),
+		Date:        gen.Instant(s.Date, 0),
+		Expires:     gen.Instant(s.Expires, 0),
 		Certs:       f.Chain,
 		CertUrl:     cu,
 		ValidityUrl: vu,
@@ -114,7 +113,7 @@ func BuildWithUsedSigner(s *Spec, prior string) (*signedexchange.Exchange, *sign
 	if err != nil {
 		return nil, nil, err
 	}
-	sg.Date, sg.Expires, sg.CertUrl, sg.ValidityUrl = time.Unix(s.Date, 0), time.Unix(s.Expires, 0), cu, vu
+	sg.Date, sg.Expires, sg.CertUrl, sg.ValidityUrl = gen.Instant(s.Date, 0), gen.Instant(s.Expires, 0), cu, vu
 	if s.Mock {
 		sg.Algorithm = &signingalgorithm.MockSigningAlgorithm{}
 	}
@@ -152,20 +151,20 @@ var discard = log.New(io.Discard, "", 0)
 
 // Verify runs Exchange.Verify at unix time t (plus nanoseconds).
 func Verify(e *signedexchange.Exchange, t int64, nsec int64, fetch signedexchange.CertFetcher) ([]byte, bool) {
-	return e.Verify(time.Unix(t, nsec), fetch, discard)
+	return e.Verify(gen.Instant(t, nsec), fetch, discard)
 }
 
 // VerifyLog is Verify but returns the log text (diagnostics in violation messages).
 func VerifyLog(e *signedexchange.Exchange, t int64, fetch signedexchange.CertFetcher) ([]byte, bool, string) {
 	var buf bytes.Buffer
-	p, ok := e.Verify(time.Unix(t, 0), fetch, log.New(&buf, "", 0))
+	p, ok := e.Verify(gen.Instant(t, 0), fetch, log.New(&buf, "", 0))
 	return p, ok, buf.String()
 }
 
 // VerifyLogAt is VerifyLog at a sub-second instant.
 func VerifyLogAt(e *signedexchange.Exchange, t, nsec int64, fetch signedexchange.CertFetcher) ([]byte, bool, string) {
 	var buf bytes.Buffer
-	p, ok := e.Verify(time.Unix(t, nsec), fetch, log.New(&buf, "", 0))
+	p, ok := e.Verify(gen.Instant(t, nsec), fetch, log.New(&buf, "", 0))
 	return p, ok, buf.String()
 }
 
